@@ -987,3 +987,11 @@ Proof. intros Ho. unfold apply_indexed.
     destruct work as [|w0 work']; [cbn [snd]; discriminate|].
     destruct (one_story d1 (w0 :: work')); [reflexivity|]. cbn [negb snd]. discriminate.
 Qed.
+
+(* decision rule: text that is already marked deleted is not edited again - a located range that covers a deleted span is skipped and
+   nothing at all changes (not even run boundaries) *)
+Lemma apply_located_deleted (s : est) (uc : bool) (st ml : nat) (nw cm : str) :
+  let sp : list ospan := if uc then match s_clean s with Some c => c | None => [] end else s_raw s in
+  existsb (fun x => is_some_nonempty (o_del x)) (filter (fun x => o_real x && (st <? o_end x) && (o_start x <? st + ml)) sp) = true ->
+  apply_located s uc st ml nw cm = (s, Skipped).
+Proof. cbn zeta. intros H. unfold apply_located. now rewrite H. Qed.
